@@ -112,6 +112,33 @@ def run(ctx: Ctx):
                         branch_consts.add(c.value)
     for nm in names:
         ctx.ob("C18.b", f"get_sampler:{nm}", nm in branch_consts, fi.loc, f"documented distribution '{nm}' has a returning branch: {nm in branch_consts}", construct=f"get_sampler:branch:{nm}")
+    # constant samplers stay inside [low, high]: 'center' is the midpoint, 'corner' one of the bounds (AST: Uniform(low=e, high=e))
+    lo_n, hi_n = fi.params()[2], fi.params()[3]
+    for n in ast.walk(fi.node):
+        if not (isinstance(n, ast.If) and isinstance(n.test, ast.Compare) and len(n.test.comparators) == 1 and isinstance(n.test.comparators[0], ast.Constant)
+                and n.test.comparators[0].value in ("center", "corner")):
+            continue
+        which = n.test.comparators[0].value
+        rets = [b.value for b in n.body if isinstance(b, ast.Return) and isinstance(b.value, ast.Call)]
+        ok, got = False, "?"
+        if len(rets) == 1 and getattr(rets[0].func, "id", "") == "Uniform":
+            kws = {k.arg: k.value for k in rets[0].keywords}
+            a_, b_ = kws.get("low", rets[0].args[0] if rets[0].args else None), kws.get("high", rets[0].args[1] if len(rets[0].args) > 1 else None)
+            if a_ is not None and b_ is not None and ast.dump(a_) == ast.dump(b_):
+                got = ast.unparse(a_)
+                # value as a polynomial in (low, high)
+                try:
+                    pv = _poly_of_expr(a_, lo_n, hi_n)
+                except Exception:
+                    pv = None
+                if pv is not None:
+                    if which == "center":
+                        ok = pv == {lo_n: 0.5, hi_n: 0.5}
+                    else:
+                        ok = pv in ({lo_n: 1.0}, {hi_n: 1.0})
+        ctx.ob("C18.b", f"get_sampler:{which}:inside-bounds", ok, fi.loc,
+               f"'{which}' samples the constant {got}: " + ("the midpoint (low + high) / 2" if which == "center" else "one of the two bounds") + f" -- {ok}",
+               construct=f"get_sampler:{which}:value")
     # ---------------- key agreement
     for cname, path in T.ALL_ENVS.items():
         env = EnvA(ctx.repo, path, cname)
@@ -189,6 +216,35 @@ def env_generator_attrs(ctx: Ctx):
         raise AnalysisError("MTVRPGenerator._generate not analysable")
     ctx.fn(gsl_.fi)
     units.obligations(ctx, "C18.f", "MTVRPGenerator._generate", gsl_.it, gsl_.fr, gsl_.where, 15, declared_out=units.MTVRP_CELLS)
+
+
+def _poly_of_expr(e, lo, hi):
+    """linear form {name: coefficient} of an arithmetic AST expression over the two names (None if not linear in them)"""
+    if isinstance(e, ast.Name) and e.id in (lo, hi):
+        return {e.id: 1.0}
+    if isinstance(e, ast.Constant) and isinstance(e.value, (int, float)):
+        return {"1": float(e.value)}
+    if isinstance(e, ast.BinOp):
+        a, b = _poly_of_expr(e.left, lo, hi), _poly_of_expr(e.right, lo, hi)
+        if a is None or b is None:
+            return None
+        if isinstance(e.op, (ast.Add, ast.Sub)):
+            sg = 1.0 if isinstance(e.op, ast.Add) else -1.0
+            out = dict(a)
+            for k, v in b.items():
+                out[k] = out.get(k, 0.0) + sg * v
+            return {k: v for k, v in out.items() if abs(v) > 1e-12}
+        if isinstance(e.op, (ast.Mult, ast.Div)):
+            if set(b) <= {"1"} and b:
+                c = b["1"]
+                return {k: (v * c if isinstance(e.op, ast.Mult) else v / c) for k, v in a.items()}
+            if isinstance(e.op, ast.Mult) and set(a) <= {"1"} and a:
+                return {k: v * a["1"] for k, v in b.items()}
+        return None
+    if isinstance(e, ast.UnaryOp) and isinstance(e.op, ast.USub):
+        a = _poly_of_expr(e.operand, lo, hi)
+        return None if a is None else {k: -v for k, v in a.items()}
+    return None
 
 
 def atsp_triangle(ctx: Ctx):
